@@ -95,7 +95,8 @@ def generate(rng, tier):
         direction = ["enc", "dec"][(i // 6) % 2]
         key = rbytes_n(rng, 8)
         iv = rbytes_n(rng, bs) if kind.startswith("cbc") else b""
-        L = rng.choice([bs, bs + 1, 2 * bs - 1, 2 * bs, 2 * bs + 1, 3 * bs, w * bs + 1, (w + 2) * bs - 1, rng.randint(bs, 6 * bs)])
+        L = rng.choice([bs, bs + 1, 2 * bs - 1, 2 * bs, 2 * bs + 1, 3 * bs, w * bs + 1, (w + 2) * bs - 1, (2 * w + 1) * bs + 1,
+                        (3 * w + 2) * bs, rng.randint(bs, 6 * bs), rng.randint(bs, (3 * w + 3) * bs)])
         msg = rbytes_n(rng, L)
         c = Case("c12_t%d" % i, "cts", bs, w, dm, tags=dict(mode=kind, dir=direction))
         c.op("new o %s new %s %s" % (kind, hx(key), hx(iv)))
